@@ -62,6 +62,7 @@ func (c05) Thresholds(tier string) map[string]int64 {
 		"mutation-still-valid":            1000,
 		"label-checks":                    3500,
 		"by-construction:mixed-indentation-not-deeper": 30,
+		"by-construction:content-after-last-node":      300,
 	}
 	for _, cl := range c05Classes {
 		th["class:"+cl] = 1000
@@ -191,7 +192,19 @@ func invalidByConstruction(r *core.Rand, s string) (string, string) {
 			break
 		}
 	}
-	switch r.Intn(4) {
+	switch r.Intn(5) {
+	case 4:
+		// something after the last node end
+		eol := "\n"
+		if strings.Contains(s, "\r\n") {
+			eol = "\r\n"
+		} else if strings.Contains(s, "\r") && !strings.Contains(s, "\n") {
+			eol = "\r"
+		}
+		if !strings.HasSuffix(s, "\n") && !strings.HasSuffix(s, "\r") {
+			s += eol
+		}
+		return s + r.Pick("x", "<<stop>>", "-> o", "title: B"+eol+"---", "line after the end", "{1}", "---", "=") + r.Pick(eol, ""), "content-after-last-node"
 	case 0:
 		if bodyStart >= 0 {
 			lines = append(lines[:bodyStart+1], append([]string{"<<endif>>\n"}, lines[bodyStart+1:]...)...)
